@@ -420,8 +420,8 @@ def run(env, with_model=True):
         "variable, function call name, function definition name with and without parameters, parameter slots 1-3, lambda arity, compressed "
         f"string/number, code-page number, string nested in structures, modifier operand) x all payloads of length <= {quick_len}; all raw strings "
         f"of length <= {raw_len} over the alphabet; random strings to length 60 over the code page; grammar-generated programs with adversarial "
-        "payloads.  The oracle sees every one of them; the Coq-side text comparison is capped at 90000 sources (thorough tier: the top payload "
-        "length is then sampled, numbers in correspondence_sampling).  They go through (1) the exact-text correspondence model-vs-vyxal.transpile (dictionary off) and (2) the oracle on the "
+        "payloads.  The oracle sees every one of them; the Coq-side text comparison samples the top payload length (quick: at the six positions "
+        "whose output is a whole function / list and for raw strings; thorough: cap of 90000 sources; numbers in correspondence_sampling).  They go through (1) the exact-text correspondence model-vs-vyxal.transpile (dictionary off) and (2) the oracle on the "
         "implementation: transpile(src) in three modes (dictionary on, dictionary off, dictionary off + variables-as-digraphs), ast.parse, every "
         "Name / attribute / keyword / parameter / def name in the vocabulary (names of transpile.py's fixed lines and of all element and modifier "
         "templates, computed with ast from the regenerated tables) or VAR_/_lambda_ + [A-Za-z0-9_]* (ctx.VAR_...), every statement header (constants "
@@ -453,6 +453,18 @@ def run(env, with_model=True):
     cpset = set(cp)
     corr = [s for _, _, s in pos] + var_single + var_pair_corr + raw + rnd + gen + [s for _, _, s in marked if set(s) <= cpset]
     corr = [s for s in dict.fromkeys(corr) if set(s) <= cpset]
+    if not env.thorough:
+        # quick tier: the Coq-side comparison of long outputs is the expensive part; positions
+        # whose output is a whole function / lambda / list get their top payload length
+        # sampled, and so do the raw strings of the top length (the oracle sees all of them)
+        heavy = {"function_def_name_with_params", "parameter_2", "parameter_3", "string_in_structures", "modifier_operand_string", "function_def_name"}
+        drop = [s for name, p, s in pos if name in heavy and len(p) >= quick_len and p not in SEEDS]
+        drop_raw = [s for s in raw if len(s) >= raw_len]
+        keep_drop = set(env.rng.sample(drop, len(drop) // 4)) | set(env.rng.sample(drop_raw, min(len(drop_raw), 1500)))
+        dropped = (set(drop) | set(drop_raw)) - keep_drop - set(var_single) - set(var_pair_corr)
+        corr = [s for s in corr if s not in dropped]
+        env.note("correspondence_sampling", {"tier": "quick", "heavy_positions_top_length": f"{len(drop) // 4} of {len(drop)}",
+                                             "raw_top_length": f"{min(len(drop_raw), 1500)} of {len(drop_raw)}", "sources_compared": len(corr)})
     cap = 90000
     if len(corr) > cap:
         # the Coq-side comparison is the expensive part: every position payload up to length
